@@ -777,7 +777,7 @@ func checkWrapperStates(p *Program, r *Report, m *Model) {
 					break
 				}
 				idx, isC := constInt(callArgs(c.Common())[0])
-				root, _, _ := rootOfView(recvOf(c.Common()))
+				root, _, _ := w.rootOfView(recvOf(c.Common()))
 				if !isC || idx != int64(k) || w.roleOfRoot(root) != "states" {
 					ok = false
 					break
@@ -798,7 +798,7 @@ func checkWrapperStates(p *Program, r *Report, m *Model) {
 					}
 					ca := callArgs(c.Common())
 					idx, isC := constInt(ca[0])
-					root, _, _ := rootOfView(recvOf(c.Common()))
+					root, _, _ := w.rootOfView(recvOf(c.Common()))
 					if isC && idx == int64(k) && ca[1] == rv && w.roleOfRoot(root) == "states" {
 						wrote = true
 					}
@@ -836,7 +836,7 @@ func checkWrapperStates(p *Program, r *Report, m *Model) {
 	}
 	bad := false
 	// extract's argument is the state row
-	root, _, _ := rootOfView(ext.Common().Args[0])
+	root, _, _ := w.rootOfView(ext.Common().Args[0])
 	if w.roleOfRoot(root) != "states" {
 		bad = true
 		r.Fail("R06.3", key+":extract-arg", p.Pos(ext.Pos()), "the extract function is not applied to the cell's state row")
@@ -875,7 +875,8 @@ func checkWrapperStates(p *Program, r *Report, m *Model) {
 	applied := false
 	for _, ref := range refsThroughConv(pack) {
 		if c, ok := ref.(*ssa.Call); ok && callName(c.Common()) == "ApplySlice" {
-			if w.roleOfRoot(recvOf(c.Common())) == "states" {
+			rt, _, _ := w.rootOfView(recvOf(c.Common()))
+			if w.roleOfRoot(recvOf(c.Common())) == "states" || w.roleOfRoot(rt) == "states" {
 				applied = true
 			}
 		}
